@@ -210,11 +210,12 @@ func appendCount(e *Env, v ssa.Value, rel *ssa.Phi, seen map[ssa.Value]bool, dep
 			return k, true
 		}
 	case *ssa.Slice:
-		if al, ok := x.X.(*ssa.Alloc); ok && x.Low == nil {
-			_ = al
+		if x.Low == nil && x.High != nil {
 			if k, ok := constInt(x.High); ok {
-				return k, true
+				return k, true // x[:k] holds k elements whatever x is
 			}
+		}
+		if _, ok := x.X.(*ssa.Alloc); ok && x.Low == nil {
 			return 0, true
 		}
 	case *ssa.Call:
